@@ -30,6 +30,13 @@ type Upload struct {
 	FileName string
 }
 
+// sectionFile is an independent view of an uploaded file
+type sectionFile struct {
+	*io.SectionReader
+}
+
+func (sectionFile) Close() error { return nil }
+
 // ParseRequestResponse is an resulting object of ParseRequestQuery.
 // It contains requests array and indicator, if request was running in batch mode.
 type ParseRequestResponse struct {
@@ -88,13 +95,17 @@ func Parse(r *http.Request) (resp *ParseRequestResponse, finalErr error) {
 				return nil, fmt.Errorf("file with index %s not found: %s", filePos, err)
 			}
 
-			upload := &Upload{
-				File:     file,
-				FileName: header.Filename,
-			}
+			// one file may be used at several paths: every position gets its own reader over
+			// the same content, otherwise the first reader would leave the others empty
+			for _, path := range paths {
+				upload := &Upload{
+					File:     sectionFile{io.NewSectionReader(file, 0, header.Size)},
+					FileName: header.Filename,
+				}
 
-			if err := resp.injectFile(upload, paths); err != nil {
-				return nil, err
+				if err := resp.injectFile(upload, []string{path}); err != nil {
+					return nil, err
+				}
 			}
 		}
 		return resp, nil
